@@ -718,7 +718,8 @@ fn exec_explore(w: &[&str], overlay: &mut HashMap<String, Bytes>, stats: &mut St
         }
         ["bpmap", text, idx, addrs @ ..] => {
             let (text, idx) = (unhex(text), unhex(idx));
-            let addrs: Vec<u32> = addrs.iter().filter_map(|a| a.parse().ok()).collect();
+            // `iter` among the addresses = `iter_symbols()` collected at that point (None in the list)
+            let addrs: Vec<Option<u32>> = addrs.iter().filter_map(|a| if *a == "iter" { Some(None) } else { a.parse().ok().map(Some) }).collect();
             let mut st = Stats::default();
             let r = guarded(|| {
                 if BreakpadIndex::parse_symindex_file(&idx[..]).is_err() {
@@ -737,15 +738,30 @@ fn exec_explore(w: &[&str], overlay: &mut HashMap<String, Bytes>, stats: &mut St
                     }
                 };
                 st.bump("bpmap_served");
-                let looks: Vec<String> = addrs
-                    .iter()
-                    .map(|a| {
-                        let r = catch_unwind(AssertUnwindSafe(|| map.lookup_sync(LookupAddress::Relative(*a)))).map_err(|_| ());
-                        let l = look_line(*a, r, &mut st);
-                        st.bump(&format!("bpmap_look_{}", l.split(' ').next().unwrap_or("")));
-                        l
-                    })
-                    .collect();
+                let mut looks: Vec<String> = Vec::new();
+                for a in &addrs {
+                    let Some(a) = a else {
+                        let names = catch_unwind(AssertUnwindSafe(|| {
+                            map.iter_symbols().map(|(a, n)| format!("{a}:{}", hex(n.as_bytes()))).collect::<Vec<String>>()
+                        }));
+                        match names {
+                            Ok(ns) => {
+                                st.bump("bpmap_iter");
+                                looks.push(format!("iter {} {}", ns.len(), ns.join(",")).trim_end().to_string());
+                            }
+                            Err(_) => {
+                                // (the cache mutex is poisoned now; the model stops here as well)
+                                looks.push("iter panic".to_string());
+                                break;
+                            }
+                        }
+                        continue;
+                    };
+                    let r = catch_unwind(AssertUnwindSafe(|| map.lookup_sync(LookupAddress::Relative(*a)))).map_err(|_| ());
+                    let l = look_line(*a, r, &mut st);
+                    st.bump(&format!("bpmap_look_{}", l.split(' ').next().unwrap_or("")));
+                    looks.push(l);
+                }
                 format!("served {}", looks.join(" ; "))
             });
             stats.merge(&st);
